@@ -98,6 +98,11 @@ def check_file(ctx, model, nptdms, data, stats, exhaustive):
         n = len(ch)
         table = chunk_table(f, ch)
         ws = cl.windows_for(n, ctx.rnd, exhaustive and n <= 8, sample=30)
+        # one-value windows at the first and last value of the first two and the last four chunks (where per-channel segment
+        # offsets of long files differ between channels)
+        for t in table[:2] + table[-4:]:
+            if t[1] > t[0]:
+                ws += [w for w in ((t[0], 1), (t[1] - 1, 1)) if w not in ws]
         mres = None
         if model is not None:
             r = model.ask("wins %s %s %s" % (hx(data), hx(p), " ".join("%d:%s" % (o, cl.tok(l)) for o, l in ws)))
